@@ -290,6 +290,7 @@ inline void run_op(const Case& c, Acc& a) {
         if (variant & 1) rd.AddPaths(O, PathType::Subject, true);
         Clipper64 c1, c2; c1.PreserveCollinear(pc); c2.ReverseSolution(rev);
         c1.AddReuseableData(rd); c1.AddClip(C);
+        if (c.geti("twice")) c1.AddReuseableData(rd);   // only pinned witnesses set this (known finding)
         c2.AddClip(C); c2.AddReuseableData(rd);
         Paths64 s1, o1, s2; PolyTree64 t2;
         if (!c1.Execute(ct, fr, s1, o1)) ++a.exec_false;
